@@ -127,7 +127,26 @@ class _TextRec:
         self.text = []
         self._partial = ""
 
+    _busy = False
+
     def write(self, s):
+        fk = self.fk
+        if self._busy:
+            # what io.BufferedWriter does when a signal handler (run from inside an interrupted write) prints to the same stream
+            raise RuntimeError("reentrant call inside <_io.BufferedWriter name='<%s>'>" % self.name)
+        if threading.current_thread() is threading.main_thread():
+            fk.writes += 1
+            if fk.abort_in_write is not None and fk.writes == fk.abort_in_write and not fk.aborted:
+                # the abort signal arrives while Conductor's main thread is blocked in write(2) on this stream (a stalled pipe,
+                # a paused terminal): CPython runs the Python-level handler from inside the write call, the stream still locked;
+                # if the handler returns, the write goes on; if it raises, the write call raises
+                self._busy = True
+                try:
+                    fk.inject_abort("<write to %s>" % self.name, 0, "write")
+                finally:
+                    self._busy = False
+                if not fk.aborted:
+                    fk.abort_in_write += 1
         with self.fk.lock:
             self.text.append(s)
             self._partial += s
@@ -178,6 +197,8 @@ class FakeKernel:
         self.points = 0
         self.lines = 0
         self.abort_at = scn.get("abort_at")
+        self.abort_in_write = scn.get("abort_in_write")   # ordinal of the main thread's write to stdout / stderr
+        self.writes = 0
         # the most recently spawned running child exits and SIGCHLD is handled right before the k-th executed line of
         # Conductor's own code (a signal handler can run between any two lines, not only around system calls)
         self.sigchld_at = scn.get("sigchld_at")
@@ -653,6 +674,16 @@ def run_cond(scn, root, chooser=None):
     os.chdir(os.path.join(root, scn.get("cwd", "")))
     # nested use: `cond` started from inside a task of an outer `cond run -j N` inherits that task's COND_* variables
     os.environ.update(scn.get("ambient") or {})
+    if scn.get("affinity") == "high":
+        # started under a restricted CPU affinity mask (taskset, a cpuset cgroup, a SLURM allocation) that is NOT cores 0..J-1:
+        # confine this process (a forked child of the harness) to the highest usable cores, one more than -j asks for
+        try:
+            usable = sorted(os.sched_getaffinity(0))
+            want = int(scn.get("affinity_n", 3))
+            if len(usable) > want and usable[-want] > want:
+                os.sched_setaffinity(0, set(usable[-want:]))
+        except (AttributeError, OSError):
+            pass
     sys.argv = ["cond"] + list(scn["argv"])
     out, err = _TextRec(fk, "stdout"), _TextRec(fk, "stderr")
     so, se = sys.stdout, sys.stderr
@@ -702,7 +733,7 @@ def run_cond(scn, root, chooser=None):
         "exc": exc,
         "stderr": errtxt[-1500:],
         "stdout_tail": ANSI.sub("", out.getvalue())[-600:],
-        "lines": fk.lines,
+        "lines": fk.lines, "writes": fk.writes,
         "line_log": fk.line_log,
         "points": fk.points,
         "trail": getattr(chooser, "trail", None),
